@@ -1,6 +1,6 @@
 #!/bin/bash
 # usage: tools/seeded_recheck.sh [sid...]      (default: every directory under /verif/seeded)
-# Re-confirms the kept seeded breakages against the CURRENT /repo HEAD: each patch is applied to a fresh scratch
+# Re-confirms the kept seeded breakages against the CURRENT /repo HEAD (or meta.json base_commit for changes superseded by a later fix): each patch is applied to a fresh scratch
 # worktree (outside /repo and /verif, removed afterwards), its demonstration must fail there, and the check(s) named
 # in meta.json "caught_by" must report a VIOLATION (quick tier, VERIF_REPO=<worktree>). One line per seed:
 #   <sid> apply=ok|FAIL demo=fails|PASSES caught_by=<ids that fired>/<ids named>
@@ -8,7 +8,8 @@ cd /verif
 SIDS="${@:-$(ls seeded)}"
 for sid in $SIDS; do
   S=/verif/seeded/$sid; W=/tmp/rc-$sid-$$
-  git -C /repo worktree add -q --detach $W HEAD || { echo "$sid worktree failed"; continue; }
+  base=$(python3 -c "import json;print(json.load(open('$S/meta.json')).get('base_commit','HEAD'))")
+  git -C /repo worktree add -q --detach $W $base || { echo "$sid worktree failed"; continue; }
   if git -C $W apply $S/patch.diff 2>/dev/null; then ap=ok; else ap=FAIL; fi
   if [ $ap = ok ]; then
     /venv/bin/python $S/demo.py $W/src >/dev/null 2>&1 && dm=PASSES || dm=fails
@@ -17,7 +18,7 @@ for sid in $SIDS; do
     for c in $named; do
       VERIF_REPO=$W VERIF_NO_EVIDENCE=1 VERIF_REPLAY_DIR=/tmp/rc-replays-$$ ./check $c quick 2>&1 | grep -q "^VIOLATION property=$c " && fired="$fired $c"
     done
-    echo "$sid apply=$ap demo=$dm caught_by=[${fired# }]/[$named]"
+    echo "$sid base=$base apply=$ap demo=$dm caught_by=[${fired# }]/[$named]"
   else
     echo "$sid apply=$ap"
   fi
